@@ -32,6 +32,9 @@ type c1Gen struct {
 	Pieces map[string][]script.Piece `json:"pieces"`
 	// DeferPiece is rendered from a Defer callback registered by the first type (may be empty)
 	DeferPiece string `json:"deferpiece,omitempty"`
+	// IgnoreType: key of a type for which GenerateType returns an error wrapping ErrIgnore AFTER rendering its pieces; what
+	// the generator rendered (for this and for the other types) is in the file all the same
+	IgnoreType string `json:"ignoretype,omitempty"`
 }
 
 type c1Case struct {
@@ -70,6 +73,11 @@ func genC01(t *rapid.T) c1Case {
 			n := fmt.Sprintf("T%d", j)
 			f.Decls = append(f.Decls, modspec.Decl{Kind: "struct", Name: n, Fields: []modspec.Field{{Names: []string{"A"}, Type: "int"}}})
 			types = append(types, tkey{c.Mod.PkgPath(&p), n})
+		}
+		if rapid.IntRange(0, 3).Draw(t, "buildconstraint") == 0 {
+			// every hand-written file of the package carries the same build constraint (satisfied here)
+			f.Build = rapid.SampledFrom([]string{"!vtnever", "linux || !vtnever", "go1.18"}).Draw(t, "buildexpr")
+			feats["package-under-a-build-constraint"] = true
 		}
 		p.Files = append(p.Files, f)
 		c.Mod.Pkgs = append(c.Mod.Pkgs, p)
@@ -186,6 +194,11 @@ func genC01(t *rapid.T) c1Case {
 			}
 			g.Pieces[tk.pkg+"."+tk.typ] = pieces
 		}
+		if len(types) >= 2 && rapid.IntRange(0, 4).Draw(t, "ignoretype") == 0 {
+			tk := types[rapid.IntRange(0, len(types)-1).Draw(t, "ignoredtype")]
+			g.IgnoreType = tk.pkg + "." + tk.typ
+			feats["errignore-after-rendering"] = true
+		}
 		if rapid.IntRange(0, 3).Draw(t, "defer") == 0 {
 			gr := &gg{t: t, uniq: fmt.Sprintf("D%d", gi), mlBlock: !c1KnownMLBlock, plain: plain, features: feats}
 			g.DeferPiece = gr.decls("T0", 1)
@@ -216,6 +229,9 @@ func (c *c1Case) scripts() []*script.Script {
 				a.Defers = []script.DeferAction{{Render: []script.Piece{{Kind: "block", Text: g.DeferPiece}}}}
 			}
 			first = false
+			if k == g.IgnoreType {
+				a.Err = "wrapignore"
+			}
 			s.PerType[k] = a
 		}
 		out = append(out, s)
@@ -415,7 +431,8 @@ func oracleC01(c c1Case) error {
 			fn := filepath.Join(loc.dir, "zz_generated."+g.Name+".go")
 			src, err := os.ReadFile(fn)
 			if text == "" {
-				if err == nil {
+				if err == nil && !strings.HasPrefix(g.IgnoreType, pp+".") {
+					// (a generator that signalled ErrIgnore for a type of this package and rendered nothing keeps its previous file: C07)
 					return fmt.Errorf("%s exists although generator %s rendered nothing", fn, g.Name)
 				}
 				continue
